@@ -15,7 +15,10 @@ Models (Python, /repo/openpectus/engine/command_manager.py):
   executed, `initialize`/`execute` each tick until `set_complete`, then `finalize` (dispose) and request done.
 * `_cancel_command` / `cancel_commands` for UOD requests as of /repo 1eb29326: cancel + always finalize the
   instance of that name; drop a request that has not started yet.
-* `uod.command_instances` survive the replacement of the CommandManager at Stop/Restart, requests do not.
+* `uod.command_instances` survive the replacement of the CommandManager at Stop/Restart, requests do not;
+  with `Cfg.cancel2` (/repo 90a68ba6) Stop and Restart cancel the UOD requests of the running loop's manager
+  once more in their second phase, so an instance that a user command started inside the stop window is
+  disposed before the manager is replaced.
 
 Abstractions / limits:
 * a UOD command is "write value v to output r on every iteration, complete after n iterations"; no overlap
@@ -86,21 +89,25 @@ end OState
     the node refuses it); a request that has not started yet (no instance, not done) is dropped.
     The one case in which the tracking mark still raises — instance id unknown to an enabled tracking — is
     outside the model's scope (`scopeViolation`). -/
-def cancelU (o : OState) (u : UReq) : OState :=
-  let o1 := if o.base.mgr.tracking && !u.tracked then { o with scopeViolation := true } else o
+def cancelU (tracking : Bool) (o : OState) (u : UReq) : OState :=
+  let o1 := if tracking && !u.tracked then { o with scopeViolation := true } else o
   match lookupI u.cmd o.uinst with
   | some _ => (o1.dispose u.cmd).markDone u
   | none => if o.um.done.contains u.id then o else o1.markDone u
 
-/-- the UOD part of `cancel_commands` (Stop / Restart): every request of the list, done or not -/
-def cancelUAll (o : OState) : OState :=
-  if o.base.next.isSome then o else o.um.exec.foldl cancelU o
+/-- the UOD part of `cancel_commands` (Stop / Restart): every request of the list, done or not.
+    `pre` is the state in which the internal command that cancels was entered: `cancel_commands` runs on
+    `engine._command_manager` as it is *then* — the manager of the running loop unless it was replaced
+    earlier in the same loop — and before the command disables tracking / replaces the manager. -/
+def cancelUAll (pre : State) (o : OState) : OState :=
+  if pre.next.isSome then o else o.um.exec.foldl (cancelU pre.mgr.tracking) o
 
 /-- `_execute_uod_command(request)` -/
 def execUod (cfg : Cfg) (o : OState) (u : UReq) : OState :=
   if cfg.pauseGate && o.base.core.paused && !u.user then o
   else
-    let o1 := (o.um.exec.filter (fun c => c.cmd == u.cmd && c.id != u.id && !o.um.done.contains c.id)).foldl cancelU o
+    let o1 := (o.um.exec.filter (fun c => c.cmd == u.cmd && c.id != u.id && !o.um.done.contains c.id)).foldl
+      (cancelU o.base.mgr.tracking) o
     let i := (lookupI u.cmd o1.uinst).getD {}
     if i.cancelled then (o1.dispose u.cmd).markDone u
     else
@@ -139,7 +146,7 @@ def cmdLoopO (cfg : Cfg) : List AnyReq → OState → OState × Bool
       match execReq cfg o.base r with
       | (s1, raised) =>
         let o1 := { o with base := s1 }
-        let o2 := if s1.cancels != o.base.cancels then cancelUAll o1 else o1
+        let o2 := if s1.cancels != o.base.cancels then cancelUAll o.base o1 else o1
         if raised then (o2, true) else cmdLoopO cfg rest o2
   | .uod u :: rest, o =>
     if o.um.done.contains u.id then cmdLoopO cfg rest o
